@@ -299,9 +299,15 @@ POOL = [0xb5, 0x62, 0x24, 0x2a, 0x00, 0xff]
 
 def pick_cid(rng):
     """a class/id of the pool, or the class of one pool entry with the id of another (never itself in the pool)"""
-    if rng.random() < 0.7:
+    k = rng.random()
+    if k < 0.65:
         return rng.choice(CIDS)
-    return (rng.choice(CIDS)[0], rng.choice(CIDS)[1])
+    if k < 0.85:
+        return (rng.choice(CIDS)[0], rng.choice(CIDS)[1])
+    if k < 0.9:
+        return CRC                  # a real frame with the class/id the parser uses for its checksum-error marker
+    # any byte as class and id, the protocol's own special characters included
+    return (rng.choice([0x24, 0x2a, 0x62, 0xb5, 0x00, 0xff, rng.randrange(256)]), rng.choice([0x24, 0x2a, 0x62, 0xb5, 0x00, 0xff, rng.randrange(256)]))
 
 
 def rand_payload(rng, n):
@@ -397,7 +403,11 @@ def chunkings(rng, data):
 
 def filt_op(rng):
     k = rng.random()
-    if k < 0.08:
+    if k < 0.06:
+        # a filter naming arbitrary class/ids
+        return 'F' + ','.join(f'{rng.choice([0x24, 0x62, 0xb5, 0, 255, rng.randrange(256)])}:{rng.choice([0x24, 0x62, 0xb5, 0, 255, rng.randrange(256)])}'
+                              for _ in range(rng.randrange(1, 4)))
+    if k < 0.12:
         return 'F'
     if k < 0.2:
         c, i = rng.choice(CIDS)
